@@ -45,6 +45,8 @@ class Ctx:
             if k['key'] == key:
                 self.known_hit.append((k, where, msg))
                 return
+        if any(v['key'] == key for v in self.viol):
+            return
         self.viol.append({'key': key, 'rule': rule, 'instance': instance, 'where': where, 'msg': msg})
 
     def lost(self, rule, what):
